@@ -19,6 +19,10 @@ CLAIMED = {
             "Simulation and execution feed compute_swap from the same classes (pool reads minus pending fees, pool_fees, type/invariant, decimals) "
             "except swap's documented offer subtraction; response fields 1:1; pair and 3-pool direction/decimals tables are permutations and agree; "
             "vault share query and withdraw use the same ratio * (balance - pending); router simulation chains return amounts.", "§4 C14"),
+    "C15": ("positional argument provenance + helper-guard dominance + ordering-domain walks of the spread/minimum checks",
+            "swap passes (belief, max, offer, return+fees, spread) to assert_max_spread and its success dominates all effects; the helper accepts "
+            "exactly the documented orderings with default 0.01 and cap 0.5; provide_liquidity propagates assert_slippage_tolerance which rejects "
+            "tolerance > 1; the router appends AssertMinimumReceive last with the right operands and it succeeds iff balance - prev >= minimum.", "§4 C15"),
     "C16": ("MIR call-chain guard dominance (edge-cut reachability) over dispatch tables",
             "Every ExecuteMsg variant of the 14 dispatching contracts x every storage write / outgoing message reachable from "
             "its arm x the sender==authority comparison that must dominate it on the call chain; unprivileged variants must not "
